@@ -90,6 +90,38 @@ def _(h):
     h.eq('so3: trexp(u, theta)', base.trexp(u, th), h.arr(rodrigues_ref(h, u, th)), tol=1e-7)
 
 
+@claim('twist-exp-theta-nonunit')
+def _(h):
+    """X.exp(theta) = exp(theta [S]) for a twist that is NOT a unit twist (rotational part of magnitude 0.7), theta a scalar,
+    a list and an array: the magnitude of the twist must not be dropped on any theta form"""
+    v = h.vec('v', 3, -1e3, 1e3)
+    t1, t2 = h.angle('t1', 0.1, 3), h.angle('t2', 0.2, 2.5)
+    sc = 1 + nsq(v) * 40
+    S = h.arr([v[0], v[1], v[2], 0.2, 0.3, 0.6])
+    X = Twist3(S)
+    h.eq('scalar theta', X.exp(t1).A, base.trexp(S * t1), tol=1e-7, scale=sc)
+    T = X.exp([t1, t2])
+    h.true('two values', len(T) == 2)
+    h.eq('list theta [1]', T.data[1], base.trexp(S * t2), tol=1e-7, scale=sc)
+    Ta = X.exp(h.arr([t2, t1]))
+    h.eq('array theta [0]', Ta.data[0], base.trexp(S * t2), tol=1e-7, scale=sc)
+
+
+@claim('twist2-exp-theta-nonunit', tier='thorough')
+def _(h):
+    """the planar form of the same: Twist2 with rotational part 0.7 or -1.9"""
+    v = h.vec('v', 2, -1e3, 1e3)
+    t1, t2 = h.angle('t1', 0.1, 3), h.angle('t2', 0.2, 2.5)
+    sc = 1 + nsq(v) * 40
+    for k in (0.7, -1.9):
+        S2 = h.arr([v[0], v[1], k])
+        X2 = Twist2(S2)
+        h.eq(f'w={k}: scalar theta', X2.exp(t1).A, base.trexp2(S2 * t1), tol=1e-7, scale=sc)
+        T2 = X2.exp([t1, t2])
+        h.true(f'w={k}: two values', len(T2) == 2)
+        h.eq(f'w={k}: list theta [1]', T2.data[1], base.trexp2(S2 * t2), tol=1e-7, scale=sc)
+
+
 @claim('exp-theta-zero')
 def _(h):
     u = unit_axis(h)
